@@ -81,8 +81,19 @@ theorem entailsA_sound (A : List Atom) (σ : State) (hA : HoldsA A σ) (a : Atom
       simp only [List.any_eq_true] at h
       obtain ⟨b, hb, hb2⟩ := h
       have hbe := hA b hb
-      cases b <;> simp at hb2 <;> simp [Atom.eval] at hbe ⊢
-      all_goals (obtain ⟨rfl, h2⟩ := hb2 <;> omega)
+      cases b with
+      | eqv a b' =>
+        simp only [Bool.or_eq_true, Bool.and_eq_true, beq_iff_eq] at hb2
+        simp [Atom.eval] at hbe ⊢
+        rcases hb2 with ⟨rfl, h2⟩ | ⟨rfl, h2⟩
+        · have := hA _ (mem_of_contains h2); simp [Atom.eval] at this; omega
+        · have := hA _ (mem_of_contains h2); simp [Atom.eval] at this; omega
+      | nz y => simp at hb2
+      | z y => simp at hb2
+      | le a b' => simp at hb2
+      | ge y k => simp at hb2; simp [Atom.eval] at hbe ⊢; obtain ⟨rfl, h2⟩ := hb2; omega
+      | eqk y k => simp at hb2; simp [Atom.eval] at hbe ⊢; obtain ⟨rfl, h2⟩ := hb2; omega
+      | lt a y => simp at hb2; simp [Atom.eval] at hbe ⊢; subst hb2; omega
     | z x =>
       have := hA _ (mem_of_contains h)
       simpa [Atom.eval] using this
@@ -159,8 +170,23 @@ theorem chain_sound (F : Facts) (σ : State) (hF : Holds F σ) : ∀ n A, HoldsA
   | zero => intro A h; simpa [chain] using h
   | succ n ih => intro A h; simp only [chain]; exact ih _ (chainStep_sound F σ hF A h)
 
-theorem closure_sound (F : Facts) (σ : State) (hF : Holds F σ) : HoldsA (closure F) σ :=
-  chain_sound F σ hF _ [] (fun _ h => by simp at h)
+theorem closure_sound (F : Facts) (σ : State) (hF : Holds F σ) : HoldsA (closure F) σ := by
+  intro a ha
+  unfold closure atomsOf at ha
+  obtain ⟨c, hc, hac⟩ := List.mem_flatMap.mp ha
+  obtain ⟨hc1, hc2⟩ := List.mem_filter.mp hc
+  have hce := hF c hc1
+  unfold Clause.eval at hce
+  have hpre : c.pre = [] := by simpa using hc2
+  simp only [hpre, List.all_nil, Bool.not_true, Bool.false_or] at hce
+  exact List.all_eq_true.mp hce a hac
+
+theorem sat_holds (F : Facts) (σ : State) (hF : Holds F σ) : Holds (sat F) σ := by
+  unfold sat
+  apply holds_union hF
+  rw [holds_facts]
+  intro a ha
+  exact chain_sound F σ hF 2 _ (closure_sound F σ hF) a (List.mem_filter.mp ha).1
 
 theorem entails_sound (F : Facts) (σ : State) (hF : Holds F σ) (a : Atom) (h : entails F a = true) :
     a.eval σ = true :=
@@ -174,19 +200,12 @@ theorem all_entails_sound (F : Facts) (σ : State) (hF : Holds F σ) (l : List A
 -- ------------------------------------------------------------------ kill
 
 theorem kill_holds (F : Facts) (σ : State) (x : Var) (n : Nat) (hF : Holds F σ) : Holds (kill x F) (σ.set x n) := by
-  unfold kill
-  apply holds_union
-  · intro c hc
-    obtain ⟨hc1, hc2⟩ := List.mem_filter.mp hc
-    have hx : x ∉ c.vars := by simpa using hc2
-    rw [clause_congr c (σ.set x n) σ (fun y hy => set_other σ x y n (fun h => hx (h ▸ hy)))]
-    exact hF c hc1
-  · intro c hc
-    obtain ⟨a, ha, rfl⟩ := List.mem_map.mp hc
-    obtain ⟨ha1, ha2⟩ := List.mem_filter.mp ha
-    have hx : x ∉ a.vars := by simpa using ha2
-    rw [fact_eval, atom_congr a (σ.set x n) σ (fun y hy => set_other σ x y n (fun h => hx (h ▸ hy)))]
-    exact closure_sound F σ hF a ha1
+  intro c hc
+  unfold kill at hc
+  obtain ⟨hc1, hc2⟩ := List.mem_filter.mp hc
+  have hx : x ∉ c.vars := by simpa using hc2
+  rw [clause_congr c (σ.set x n) σ (fun y hy => set_other σ x y n (fun h => hx (h ▸ hy)))]
+  exact hF c hc1
 
 theorem killAll_holds : ∀ (outs : List Var) (F : Facts) (σ : State) (vals : List Nat), Holds F σ →
     Holds (killAll outs F) (setMany σ outs vals) := by
@@ -282,31 +301,41 @@ theorem condFacts_pre {e : Var} {p : Bool} {as : List Atom} {σ : State}
   obtain ⟨a, _, rfl⟩ := List.mem_map.mp hc
   simp [Clause.eval, h]
 
-theorem discr_sound {A B : List Atom} {e : Var} (h : e ∈ discr A B) : Atom.nz e ∈ A ∧ entailsA B (.z e) = true := by
+theorem discr_sound {A B : List Atom} {e : Var} (h : e ∈ discr A B) :
+    entailsA A (.nz e) = true ∧ entailsA B (.z e) = true := by
   unfold discr at h
   have h1 := List.mem_of_mem_take h
-  obtain ⟨h2, h3⟩ := List.mem_filter.mp h1
-  obtain ⟨a, ha, hae⟩ := List.mem_filterMap.mp h2
-  cases a <;> simp at hae
-  subst hae
-  exact ⟨ha, h3⟩
+  have h3 := (List.mem_filter.mp h1).2
+  simpa using h3
 
 /-- the result of `meet` holds in a state reached on the first path -/
 theorem meet_some_left (A B : Facts) (σ : State) (hA : Holds A σ) :
     ∃ G, meet (some A) (some B) = some G ∧ Holds G σ := by
   refine ⟨_, rfl, ?_⟩
   have hca := closure_sound A σ hA
+  apply sat_holds
   apply holds_union
   · apply holds_union
-    · exact fun c hc => hA c (List.mem_filter.mp hc).1
-    · rw [holds_facts]
-      intro a ha
-      exact hca a (List.mem_filter.mp ha).1
+    · apply holds_union
+      · apply holds_union
+        · exact fun c hc => hA c (List.mem_filter.mp hc).1
+        · rw [holds_facts]
+          intro a ha
+          exact hca a (List.mem_filter.mp ha).1
+      · rw [holds_facts]
+        intro a ha
+        exact entailsA_sound _ σ hca a (List.mem_filter.mp ha).2
+    · intro c hc
+      obtain ⟨e, he, rfl⟩ := List.mem_map.mp hc
+      have h3 := (List.mem_filter.mp he).2
+      simp only [Bool.and_eq_true] at h3
+      rw [fact_eval]
+      exact entailsA_sound _ σ hca _ h3.1
   · intro c hc
     rcases List.mem_append.mp hc with h | h
     · obtain ⟨e, he, hc2⟩ := List.mem_flatMap.mp h
       obtain ⟨hnz, _⟩ := discr_sound he
-      have hnz' := hca _ hnz
+      have hnz' := entailsA_sound _ σ hca _ hnz
       rcases List.mem_append.mp hc2 with h3 | h3
       · exact condFacts_post (fun a ha => hca a (List.mem_filter.mp ha).1) c h3
       · refine condFacts_pre (p := false) ?_ c h3
@@ -326,14 +355,26 @@ theorem meet_some_right (A B : Facts) (σ : State) (hB : Holds B σ) :
     ∃ G, meet (some A) (some B) = some G ∧ Holds G σ := by
   refine ⟨_, rfl, ?_⟩
   have hcb := closure_sound B σ hB
+  apply sat_holds
   apply holds_union
   · apply holds_union
+    · apply holds_union
+      · apply holds_union
+        · intro c hc
+          have := (List.mem_filter.mp hc).2
+          exact hB c (by simpa using this)
+        · rw [holds_facts]
+          intro a ha
+          exact entailsA_sound _ σ hcb a (List.mem_filter.mp ha).2
+      · rw [holds_facts]
+        intro a ha
+        exact hcb a (List.mem_filter.mp ha).1
     · intro c hc
-      have := (List.mem_filter.mp hc).2
-      exact hB c (by simpa using this)
-    · rw [holds_facts]
-      intro a ha
-      exact entailsA_sound _ σ hcb a (List.mem_filter.mp ha).2
+      obtain ⟨e, he, rfl⟩ := List.mem_map.mp hc
+      have h3 := (List.mem_filter.mp he).2
+      simp only [Bool.and_eq_true] at h3
+      rw [fact_eval]
+      exact entailsA_sound _ σ hcb _ h3.2
   · intro c hc
     rcases List.mem_append.mp hc with h | h
     · obtain ⟨e, he, hc2⟩ := List.mem_flatMap.mp h
@@ -346,7 +387,7 @@ theorem meet_some_right (A B : Facts) (σ : State) (hB : Holds B σ) :
       · exact condFacts_post (fun a ha => hcb a (List.mem_filter.mp ha).1) c h3
     · obtain ⟨e, he, hc2⟩ := List.mem_flatMap.mp h
       obtain ⟨hnz, _⟩ := discr_sound he
-      have hnz' := hcb _ hnz
+      have hnz' := entailsA_sound _ σ hcb _ hnz
       rcases List.mem_append.mp hc2 with h3 | h3
       · exact condFacts_post (fun a ha => hcb a (List.mem_filter.mp ha).1) c h3
       · refine condFacts_pre (p := false) ?_ c h3
@@ -557,7 +598,7 @@ def IterOK (P : Prog) (O : Oracle) (n : Nat) : Prop :=
   ∀ m m' i cnt inv body L (Fk : Facts) Bn Br k σ,
     assigned P m' body = some L →
     (∀ c ∈ Fk, ∀ x ∈ c.vars, x ≠ i ∧ x ∉ L) →
-    check P m (union (union Fk (inv.map fact)) [fact (.lt i cnt)]) body = some (Bn, Br) →
+    check P m (sat (union (union Fk (inv.map fact)) [fact (.lt i cnt)])) body = some (Bn, Br) →
     invKept inv Bn = true →
     (∀ a ∈ inv, i ∉ a.vars) → i ≠ cnt → Holds Fk σ → HoldsA inv σ →
     Post (run P O n (.iter i cnt k body) σ) (some (union Fk (inv.map fact))) Br
@@ -586,7 +627,8 @@ theorem iter_step (P : Prog) (O : Oracle) (n : Nat) (hM : Main P O n) (hI : Iter
       intro c hc
       rw [clause_congr c (σ.set i k) σ (fun y hy => set_other σ i y k (hFk c hc y hy).1)]
       exact hk0 c hc
-    have hF0 : Holds (union (union Fk (inv.map fact)) [fact (.lt i cnt)]) (σ.set i k) := by
+    have hF0 : Holds (sat (union (union Fk (inv.map fact)) [fact (.lt i cnt)])) (σ.set i k) := by
+      apply sat_holds
       apply holds_union
       · exact holds_union hk1 ((holds_facts inv _).mpr hinv1)
       · intro c hc
@@ -693,7 +735,7 @@ theorem main_step (P : Prog) (O : Oracle) (n : Nat) (hM : Main P O n) (hI : Iter
     by_cases hens : ens.all (·.eval (setMany σ outs (O f σ))) = true
     · simp only [hens, if_true]
       refine ⟨_, rfl, ?_⟩
-      exact holds_union (killAll_holds outs F σ _ hF) (fun c hc => List.all_eq_true.mp hens c hc)
+      exact sat_holds _ _ (holds_union (killAll_holds outs F σ _ hF) (fun c hc => List.all_eq_true.mp hens c hc))
     · simp only [hens]
       simp [Post]
   | set x a =>
@@ -705,6 +747,7 @@ theorem main_step (P : Prog) (O : Oracle) (n : Nat) (hM : Main P O n) (hI : Iter
       simp only [Option.some.injEq, Prod.mk.injEq] at hchk
       obtain ⟨rfl, rfl⟩ := hchk
       refine ⟨_, rfl, ?_⟩
+      apply sat_holds
       refine holds_union hk ?_
       intro c hc
       simp only [List.mem_singleton] at hc
@@ -719,6 +762,7 @@ theorem main_step (P : Prog) (O : Oracle) (n : Nat) (hM : Main P O n) (hI : Iter
       · simp only [hy, if_false, Option.some.injEq, Prod.mk.injEq] at hchk
         obtain ⟨rfl, rfl⟩ := hchk
         refine ⟨_, rfl, ?_⟩
+        apply sat_holds
         refine holds_union hk ?_
         intro c hc
         simp only [List.mem_singleton] at hc
@@ -728,17 +772,17 @@ theorem main_step (P : Prog) (O : Oracle) (n : Nat) (hM : Main P O n) (hI : Iter
     simp only [check] at hchk
     simp only [run]
     have hcs := cond_sound F σ hF c
-    generalize hct : (if inconsistent (union F ((c.pos F).map fact)) then some (none, none)
-      else check P m (union F ((c.pos F).map fact)) t) = ct at hchk
-    generalize hce : (if inconsistent (union F ((c.neg F).map fact)) then some (none, none)
-      else check P m (union F ((c.neg F).map fact)) e) = ce at hchk
+    generalize hct : (if inconsistent (sat (union F ((c.pos F).map fact))) then some (none, none)
+      else check P m (sat (union F ((c.pos F).map fact))) t) = ct at hchk
+    generalize hce : (if inconsistent (sat (union F ((c.neg F).map fact))) then some (none, none)
+      else check P m (sat (union F ((c.neg F).map fact))) e) = ce at hchk
     match ct, ce, hchk with
     | some (Tn, Tr), some (En, Er), hchk =>
       simp only [Option.some.injEq, Prod.mk.injEq] at hchk
       obtain ⟨rfl, rfl⟩ := hchk
       by_cases hc : c.eval σ = true
       · simp only [hc, if_true]
-        have hF' : Holds (union F ((c.pos F).map fact)) σ := holds_union hF ((holds_facts _ σ).mpr (hcs.1 hc))
+        have hF' : Holds (sat (union F ((c.pos F).map fact))) σ := sat_holds _ _ (holds_union hF ((holds_facts _ σ).mpr (hcs.1 hc)))
         rw [inconsistent_sound _ σ hF'] at hct
         simp only [Bool.false_eq_true, if_false] at hct
         have ht := hM m _ t _ _ σ hct hF'
@@ -752,7 +796,7 @@ theorem main_step (P : Prog) (O : Oracle) (n : Nat) (hM : Main P O n) (hI : Iter
         | .error (.unknownFn f), _ => simp [Post]
       · have hc' : c.eval σ = false := by simpa using hc
         simp only [hc', Bool.false_eq_true, if_false]
-        have hF' : Holds (union F ((c.neg F).map fact)) σ := holds_union hF ((holds_facts _ σ).mpr (hcs.2 hc'))
+        have hF' : Holds (sat (union F ((c.neg F).map fact))) σ := sat_holds _ _ (holds_union hF ((holds_facts _ σ).mpr (hcs.2 hc')))
         rw [inconsistent_sound _ σ hF'] at hce
         simp only [Bool.false_eq_true, if_false] at hce
         have he := hM m _ e _ _ σ hce hF'
